@@ -295,7 +295,11 @@ def evalG (fuel : Nat) (F : GFile) (ρ : GEnv) (w : GWorld) (e : GExpr) : GRes G
         | some v => .ok v w
         | none => .fail (.stuck ("go: no field " ++ f)) w
       | _ => .fail (.stuck "go: field of a non-struct pointer") w
-    | .ok .nilv w => .fail (.panic "nil pointer dereference") w
+    | .ok .nilv w =>
+      -- `p.f` with `p` a nil pointer panics; a value of a non-pointer (struct) type is never nil in
+      -- Go, so the untyped semantics has no rule for that case
+      if isPtrTy (staticTy obj) then .fail (.panic "nil pointer dereference") w
+      else .fail (.stuck "go: nil value of a non-pointer type") w
     | .ok _ w => .fail (.stuck "go: field of a non-struct") w
   | .index _ arr idx =>
     match evalG fuel F ρ w arr with
